@@ -137,6 +137,8 @@ Proof.
   destruct (h_kind h); try (apply G in H; exact H).
   - cbv zeta in H. destruct v; try (inversion H; subst; destruct (v_set_atomic var); auto; apply get_leaf_add_conts).
     inversion H; subst. rewrite get_leaf_put_obj, get_leaf_clear_below by assumption. apply get_leaf_add_conts.
+  - cbv zeta in H. destruct v; try (inversion H; subst; destruct (v_set_atomic var); auto; apply get_leaf_add_conts).
+    inversion H; subst. rewrite get_leaf_put_obj, get_leaf_clear_below by assumption. apply get_leaf_add_conts.
   - inversion H; subst; reflexivity.
   - destruct (forallb _ _); [|inversion H; subst; reflexivity].
     destruct (convert KAny v); inversion H; subst; auto. apply get_set_other; congruence.
@@ -152,6 +154,7 @@ Proof.
                  end) = (s', false) -> s' = s).
   { intros k. cbv zeta. destruct (convert k v); intros E; inversion E; subst; reflexivity. }
   destruct (h_kind h); intros H; try (apply G in H; exact H).
+  - cbv zeta in H. destruct v; inversion H; subst; reflexivity.
   - cbv zeta in H. destruct v; inversion H; subst; reflexivity.
   - inversion H.
   - destruct (forallb _ _); [|inversion H; subst; reflexivity].
@@ -176,6 +179,11 @@ Proof.
     inversion H; subst. unfold has_cont at 1. rewrite conts_put_obj. fold (has_cont (clear_below (add_conts s p (h_conts h)) p) c).
     rewrite has_cont_clear_below, has_cont_add_conts, Hc. simpl.
     destruct (is_prefix_b p c); [right; reflexivity | left; reflexivity].
+  - cbv zeta in H.
+    destruct v; try (left; inversion H; subst; destruct (v_set_atomic var); auto; rewrite has_cont_add_conts, Hc; reflexivity).
+    inversion H; subst. unfold has_cont at 1. rewrite conts_put_obj. fold (has_cont (clear_below (add_conts s p (h_conts h)) p) c).
+    rewrite has_cont_clear_below, has_cont_add_conts, Hc. simpl.
+    destruct (is_prefix_b p c); [right; reflexivity | left; reflexivity].
   - left. inversion H; subst; assumption.
   - left. destruct (forallb _ _); [|inversion H; subst; assumption].
     destruct (convert KAny v); inversion H; subst; auto.
@@ -195,6 +203,9 @@ Proof.
   { intros k. cbv zeta. destruct (convert k v); intros E; inversion E; subst.
     rewrite has_cont_set_leaf in Hc. auto. }
   destruct (h_kind h); try (apply G in H; exact H).
+  - cbv zeta in H. destruct v; inversion H; subst.
+    unfold has_cont in Hc. rewrite conts_put_obj in Hc. fold (has_cont (clear_below (add_conts s p (h_conts h)) p) c) in Hc.
+    rewrite has_cont_clear_below in Hc. apply andb_true_iff in Hc as [Hc _]. auto.
   - cbv zeta in H. destruct v; inversion H; subst.
     unfold has_cont in Hc. rewrite conts_put_obj in Hc. fold (has_cont (clear_below (add_conts s p (h_conts h)) p) c) in Hc.
     rewrite has_cont_clear_below in Hc. apply andb_true_iff in Hc as [Hc _]. auto.
@@ -972,12 +983,15 @@ Qed.
 (* a successful Set of a struct-valued path replaces the entry: no leaf and no container of the old entry
    survives below it, whatever variant *)
 Lemma obj_set_replaces var s h p fs s' :
-  h_kind h = KObj -> set_store var s h p (VObj fs) = (s', true) ->
+  h_kind h = KObj \/ h_kind h = KObjF -> set_store var s h p (VObj fs) = (s', true) ->
   (forall q, is_prefix_b p q = true -> (forall f, In f fs -> q <> p ++ [fst f]) -> get_leaf s' q = None) /\
   (forall c, has_cont s' c = true -> is_prefix_b p c = true -> c = p) /\
   (forall q, is_prefix_b p q = false -> get_leaf s' q = get_leaf s q).
 Proof.
-  intros HK H. pose proof H as H0. unfold set_store in H. rewrite HK in H. cbv zeta in H. inversion H; subst; clear H.
+  intros HK H. pose proof H as H0. unfold set_store in H.
+  assert (E : (put_obj (clear_below (add_conts s p (h_conts h)) p) p fs, true) = (s', true))
+    by (destruct HK as [HK|HK]; rewrite HK in H; exact H).
+  clear H. inversion E; subst; clear E.
   repeat split.
   - intros q Hb Hf. rewrite get_leaf_put_obj_other by assumption.
     unfold get_leaf, clear_below; simpl. apply get_leaf_l_filter_none. intros v. simpl. rewrite Hb. reflexivity.
